@@ -17,7 +17,7 @@ Gen/Api.lean) and requires verdict and error-code class to be equal.
 
 Environment overrides (used for scratch runs against a modified worktree, never by ./check itself):
 BV_REPO (crate to build against), BV_LEAN_DIR (lake project holding the generated Api.lean)."""
-import os, re, sys, json, time, glob, shutil, hashlib, subprocess
+import time, os, re, sys, json, time, glob, shutil, hashlib, subprocess
 from concurrent.futures import ThreadPoolExecutor
 
 sys.path.insert(0, os.path.dirname(os.path.dirname(os.path.abspath(__file__))))
@@ -781,7 +781,24 @@ def judge(ctx, probes, table, res, rlib):
 # --------------------------------------------------------------------------------------------------
 def run(ctx, seed_shift=0, tier=None):
     seed = (ctx.seed * 1000003 + seed_shift * 7919) & MASK
-    return run_probes(ctx, seed, tier or ctx.tier, tag=f"s{seed_shift}")
+    out = run_probes(ctx, seed, tier or ctx.tier, tag=f"s{seed_shift}")
+    # support for the auto-trait clause: a program that moves every `Send` value type of the crate to another thread
+    # while the owner keeps allocating is *accepted* by rustc; under Miri it must be race-free (it is exactly when those
+    # values never reach the arena from their destructors)
+    try:
+        from families import threads as T
+        t = time.time()
+        nseeds = 4 if (tier or ctx.tier) == "thorough" else 1
+        fails, runs = T.run_miri(ctx, "send", [seed % 1000 + i for i in range(nseeds)])
+        for f in fails:
+            f["prop"] = "C05"
+            f["name"] = "miri-data-race-in-accepted-program"
+        out["oracle_fails"] = out.get("oracle_fails", []) + fails
+        out.setdefault("extra", {})["miri_runs"] = runs
+        ctx.log(f"miri send-mode runs in {time.time() - t:.1f}s: {runs}")
+    except Exception as e:  # Miri is support, not the deciding method
+        ctx.log(f"miri send-mode skipped: {e}")
+    return out
 
 
 def search(ctx, run_, proof):
